@@ -19,6 +19,9 @@
 //! is what the rounding analysis gives. κ(G_s) comes from the harness's Jacobi eigen-solver; cases with
 //! (64·ε + 4·γ_n)·κ > 1e-3 are counted as vacuous (nothing can be demanded of normal equations there).
 //!
+//! Abscissae at small absolute scales (stream 7, see the section before `run`): the shapes above multiplied by 2^-k,
+//! responses polynomial in x·2^k — same oracle, which is invariant under column scaling; signed `|fit:scaled:*`.
+//!
 //! Besides the random single fits on fresh regressors there are two directed workloads:
 //!   * refit histories (stream 3): ONE regressor object is fitted on data set A, then B (another n), then
 //!     possibly C, or has its public `coef` field pre-set before the fit. Every refit gets the complete
@@ -165,6 +168,10 @@ struct Case {
     truth: Vec<f64>,
     sigma: f64,
     exact_int: bool,
+    /// absolute scale of the abscissae: a power of two such that x / unit lies in [-2, 2] (1 for the kinds
+    /// that fill [-2, 2]). Used by the oracle only to solve its reference least-squares problem in the
+    /// variable x / unit — the same polynomial, coefficient j multiplied by unit^j, all exactly.
+    unit: f64,
 }
 
 fn gen_case(i: usize, rng: &mut Rng) -> Case {
@@ -202,7 +209,7 @@ fn build_case(rng: &mut Rng, kind: &'static str, d: usize, n: usize, exact_int: 
     let truth: Vec<f64> = if exact_int { (0..=d).map(|_| rng.int(-5, 5) as f64).collect() } else { (0..=d).map(|_| rng.range(-3.0, 3.0)).collect() };
     let sigma = if exact_int || rng.chance(0.2) { 0.0 } else { rng.log_range(1e-8, 1e4) };
     let y: Vec<f64> = x.iter().map(|&xi| horner_dd(&truth, xi).f() + if sigma > 0.0 { sigma * rng.normal() } else { 0.0 }).collect();
-    Case { kind, d, x, y, truth, sigma, exact_int }
+    Case { kind, d, x, y, truth, sigma, exact_int, unit: 1.0 }
 }
 
 fn one_fit(rep: &mut Report, c: &Case) {
@@ -242,7 +249,7 @@ struct Scale {
 /// (None: freshly constructed).
 fn check_coef(rep: &mut Report, c: &Case, regime: &str, fitted: Result<Vec<f64>, String>, history: Option<&serde_json::Value>) -> Option<(Vec<f64>, Scale)> {
     let (d, m, n) = (c.d, c.d + 1, c.x.len());
-    let input = |extra: serde_json::Value| json!({"degree": d, "n": n, "kind": c.kind, "sigma": c.sigma, "x": jf(&c.x), "y": jf(&c.y), "true_coef": jf(&c.truth), "object_history": history, "detail": extra});
+    let input = |extra: serde_json::Value| json!({"degree": d, "n": n, "kind": c.kind, "sigma": c.sigma, "x": jf(&c.x), "y": jf(&c.y), "true_coef": jf(&c.truth), "abscissa_unit": c.unit, "object_history": history, "detail": extra});
     let coef = match fitted {
         Err(msg) => {
             rep.check("C14.fit.no_panic", &regime, false, || input(json!({"panic": msg})));
@@ -321,10 +328,14 @@ fn check_coef(rep: &mut Report, c: &Case, regime: &str, fitted: Result<Vec<f64>,
                 input(json!({"coef": jf(&coef), "power": wj, "r_dot_xj_over_norm": jnum(g[wj].f().abs() / colnorm[wj]), "bound": bound, "kappa": kappa, "ratio": jnum(worst)}))
             });
             // (2) RSS against the reference least-squares solution
-            let vf: Vec<f64> = p.iter().map(|v| v.f()).collect();
+            // the reference solves for the polynomial in x / unit (unit a power of two: the powers and the
+            // back-substitution c_j = c'_j / unit^j are exact), so that its own elimination sees columns of comparable size
+            let upow: Vec<f64> = (0..m).map(|j| c.unit.powi(j as i32)).collect();
+            let vf: Vec<f64> = p.iter().enumerate().map(|(k, v)| v.f() / upow[k % m]).collect();
             match linref::ridge_ls(&vf, &c.y, None, &vec![0.0; m], n, m) {
                 None => rep.inconclusive(format!("C14: reference least squares failed (kappa {:.3e})", kappa)),
                 Some(cref) => {
+                    let cref: Vec<f64> = cref.iter().zip(&upow).map(|(v, u)| v / u).collect();
                     let crd: Vec<Dd> = cref.iter().map(|&v| Dd::new(v)).collect();
                     let rss_ref = rss_dd(&p, &c.y, &crd, m);
                     let excess = (rss - rss_ref).f().max(0.0).sqrt();
@@ -837,8 +848,82 @@ fn pool_case(i: usize, pools: &[(usize, rayon::ThreadPool)], rng: &mut Rng, rep:
     }
 }
 
+
+// ---------------------------------------------------------------------------------------------
+// abscissae at absolute scales far from 1 (stream 7)
+//
+// The quantifier says "abscissae in [-2, 2]", not "abscissae that fill [-2, 2]": offsets of a few
+// micrometres given in metres, sub-millisecond times given in seconds, a normalised detuning of +-0.1 fitted
+// at degree 6 are all inside it. (Scales above 2 are outside the stated range, so "far from 1" can only mean
+// small here.) Case i: degree = i mod 7, shape = (i/7) mod 4 of {uniform, Chebyshev, dyadic lattice m/8 with
+// m in -16..16, one-sided uniform on [0, 2]} on [-2, 2], multiplied by unit = 2^-k, k uniform in 1..200/degree
+// (so that x^(2·degree) stays above 2^-400: no underflow in anybody's Gram matrix). The responses are
+// polynomials in the natural variable u = x / unit with coefficients t_j of ordinary size (integers in -5..5
+// on the lattice: the data are then exactly representable and the least-squares polynomial is known exactly),
+// i.e. c_j = t_j / unit^j, plus noise of any scale or none.
+// Oracle: the unchanged single-fit oracle. Every bound in it is stated on the column-scaled problem
+// (kappa of the column-scaled Gram matrix, residual inner products divided by the column norm, coefficient
+// errors multiplied by it, RSS against the double-double reference), and column scaling does not change the
+// least-squares polynomial — so the bound does not know the unit, and a fit that is within B at unit 1 and is
+// not at unit 2^-k has broken the property, not the tolerance.
+
+const SCALED: [&str; 4] = ["scaled:uniform", "scaled:chebyshev", "scaled:lattice", "scaled:one-sided"];
+
+fn scaled_case(i: usize, small: bool, rng: &mut Rng) -> (Case, usize) {
+    let d = i % 7;
+    let kind = SCALED[(i / 7) % 4];
+    let kmax = if d == 0 { 200 } else { 200 / d };
+    let k = rng.usize(1, kmax);
+    let unit = (2.0f64).powi(-(k as i32));
+    let n = if small { draw_n(rng, d).min(d + 40) } else { draw_n(rng, d) };
+    let lattice = kind == "scaled:lattice";
+    // the shape in the natural variable u = x / unit
+    let u: Vec<f64> = match kind {
+        "scaled:uniform" => abscissae(rng, "uniform", n, d),
+        "scaled:chebyshev" => abscissae(rng, "chebyshev", n, d),
+        "scaled:lattice" => {
+            // d+1 <= 7 distinct values first, then anything on the lattice
+            let mut vals: Vec<f64> = (-16..=16).map(|m| m as f64 / 8.0).collect();
+            rng.shuffle(&mut vals);
+            let mut v: Vec<f64> = (0..n).map(|i| if i <= d { vals[i] } else { vals[rng.usize(0, 32)] }).collect();
+            rng.shuffle(&mut v);
+            v
+        }
+        _ => {
+            let mut v: Vec<f64> = (0..n).map(|_| rng.range(0.0, 2.0)).collect();
+            let mut tries = 0;
+            while n_distinct(&v) < d + 1 && tries < 20 {
+                v = (0..n).map(|_| rng.range(0.0, 2.0)).collect();
+                tries += 1;
+            }
+            v
+        }
+    };
+    let t: Vec<f64> = if lattice { (0..=d).map(|_| rng.int(-5, 5) as f64).collect() } else { (0..=d).map(|_| rng.range(-3.0, 3.0)).collect() };
+    let sigma = if rng.chance(if lattice { 0.6 } else { 0.3 }) { 0.0 } else { rng.log_range(1e-8, 1e4) };
+    // on the lattice Horner in u is exact in f64 (dyadic rationals of at most 6·5 + 4 bits)
+    let y: Vec<f64> = u.iter().map(|&ui| horner_dd(&t, ui).f() + if sigma > 0.0 { sigma * rng.normal() } else { 0.0 }).collect();
+    // multiplying by a power of two is exact
+    let x: Vec<f64> = u.iter().map(|&ui| ui * unit).collect();
+    let truth: Vec<f64> = t.iter().enumerate().map(|(j, &tj)| tj / unit.powi(j as i32)).collect();
+    (Case { kind, d, x, y, truth, sigma, exact_int: false, unit }, k)
+}
+
+fn scaled_fit(i: usize, small: bool, rng: &mut Rng, rep: &mut Report) {
+    let (c, k) = scaled_case(i, small, rng);
+    rep.seen(&format!("scaled:deg={}", c.d), 1);
+    rep.seen(if k <= 10 { "scaled:unit=2^-1..2^-10" } else if k <= 40 { "scaled:unit=2^-11..2^-40" } else { "scaled:unit<2^-40" }, 1);
+    // how far the powers are graded: log2 of ||x^d|| / ||x^0|| is about -k·d
+    let g = k * c.d;
+    rep.seen(if g == 0 { "scaled:grading=none" } else if g < 26 { "scaled:grading<2^-26" } else if g < 100 { "scaled:grading=2^-26..2^-100" } else { "scaled:grading>2^-100" }, 1);
+    if c.kind == "scaled:lattice" && c.sigma == 0.0 {
+        rep.seen("scaled:exactly-representable-polynomial-data", 1);
+    }
+    one_fit(rep, &c);
+}
+
 pub fn run(cfg: &Cfg, rep: &mut Report) {
-    rep.rule = "case i: abscissa kind = i mod 4 (uniform, clustered, Chebyshev, integer lattice in [-2,2]), degree = (i/4) mod 7 (integer lattice: <= 4), n in {d+1, d+2..30, 30..300, 300..2000}, y = polynomial(coef in [-3,3]) + sigma*normal with sigma = 0 (20%) or log-uniform 1e-8..1e4; exact-integer cases: lattice abscissae, integer coefficients in -5..5, degree <= 3, no noise. Then direct predict cases with arbitrary distinct coefficients. Then refit histories on ONE regressor object (degree = i mod 7): fit A then B with another n; fit A, B, C; public coef field preset then fit — each refit gets the full single-fit oracle and is compared with a fresh regressor. Then the size sweep: every degree 0..6 with EVERY n in degree+1..2000 (quick: abscissa kind rotating with n; thorough: all four kinds), fresh regressor, cheap f64 oracle (no panic, shape, finite, orthogonality within 2B). Then histories on a thread of their own: twin fit of a valid data set, 1..3 calls of fit outside the quantifier (case i: degree = i mod 7, class = (i/7) mod 7 of {x longer, y longer, empty y, empty x, fewer than d+1 points, equal abscissae, NaN}, same / new object by (i/49) mod 2), then the valid data set again — full oracle and agreement with the twin. Then every case fitted outside any rayon pool and inside pools of 1, 2, 33, 48, 64, 128 threads (n: main distribution | uniform 1024..2000 | uniform 300..2000 | 2^k-1..2^k+1, k = 4..10) — full oracle on every pool fit and agreement with the outside fit. non-trivial = degree >= 1, noise > 0 and n > d+1 (optimality rather than interpolation); distinct by (kind, degree, n, sigma, first/last point)".into();
+    rep.rule = "case i: abscissa kind = i mod 4 (uniform, clustered, Chebyshev, integer lattice in [-2,2]), degree = (i/4) mod 7 (integer lattice: <= 4), n in {d+1, d+2..30, 30..300, 300..2000}, y = polynomial(coef in [-3,3]) + sigma*normal with sigma = 0 (20%) or log-uniform 1e-8..1e4; exact-integer cases: lattice abscissae, integer coefficients in -5..5, degree <= 3, no noise. Then direct predict cases with arbitrary distinct coefficients. Then refit histories on ONE regressor object (degree = i mod 7): fit A then B with another n; fit A, B, C; public coef field preset then fit — each refit gets the full single-fit oracle and is compared with a fresh regressor. Then the size sweep: every degree 0..6 with EVERY n in degree+1..2000 (quick: abscissa kind rotating with n; thorough: all four kinds), fresh regressor, cheap f64 oracle (no panic, shape, finite, orthogonality within 2B). Then histories on a thread of their own: twin fit of a valid data set, 1..3 calls of fit outside the quantifier (case i: degree = i mod 7, class = (i/7) mod 7 of {x longer, y longer, empty y, empty x, fewer than d+1 points, equal abscissae, NaN}, same / new object by (i/49) mod 2), then the valid data set again — full oracle and agreement with the twin. Then every case fitted outside any rayon pool and inside pools of 1, 2, 33, 48, 64, 128 threads (n: main distribution | uniform 1024..2000 | uniform 300..2000 | 2^k-1..2^k+1, k = 4..10) — full oracle on every pool fit and agreement with the outside fit. Then abscissae at small absolute scales (case i: degree = i mod 7, shape = (i/7) mod 4 of {uniform, Chebyshev, dyadic lattice m/8, one-sided uniform on [0,2]} times unit = 2^-k, k uniform in 1..200/degree; responses = polynomial in x/unit with coefficients in [-3,3] (lattice: integers in -5..5, exactly representable data) + sigma*normal, sigma = 0 (30 %, lattice 60 %) or log-uniform 1e-8..1e4) with the full single-fit oracle, whose bounds live on the column-scaled problem. non-trivial = degree >= 1, noise > 0 and n > d+1 (optimality rather than interpolation); distinct by (kind, degree, n, sigma, first/last point)".into();
     rep.assume("at least degree+1 distinct abscissae (ensured by the generator)");
     rep.assume("abscissae in [-2,2], finite responses; cases whose column-scaled Gram matrix has (64*eps + 4*gamma_n)*kappa > 1e-3 are counted as vacuous (only shape, finiteness of predict and Horner evaluation are checked there)");
     rep.assume("optimality bounds are stated relative to ||y|| (a-priori error of normal equations), not relative to ||r|| as DESIGN wrote: the latter is unsound for noise-free data");
@@ -940,6 +1025,26 @@ pub fn run(cfg: &Cfg, rep: &mut Report) {
         if !cfg.lite {
             rep.require("pool:n<256", 1);
             rep.require("pool:256<=n<1024", 1);
+        }
+    }
+    // abscissae at small absolute scales inside [-2, 2] (stream 7)
+    rep.assume("abscissae on a small absolute scale (|x| <= 2^(1-k), k = 1..200/degree) are inside the quantifier's range [-2, 2]; scales above 2 are outside it and are not generated; the oracle's bounds are stated on the column-scaled problem and therefore do not depend on the scale");
+    let ns = cfg.pick(560, 8400, 28);
+    par_cases(cfg, rep, 7, ns, |i, rng: &mut Rng, rep| scaled_fit(i, cfg.miri(), rng, rep));
+    for k in SCALED {
+        rep.require(&format!("checked:{}", k), 1);
+        if !cfg.lite {
+            rep.require(&format!("fit:{}:exact", k), 1);
+            rep.require(&format!("fit:{}:noisy", k), 1);
+        }
+    }
+    for d in 0..7 {
+        rep.require(&format!("scaled:deg={}", d), 1);
+    }
+    if !cfg.lite {
+        rep.require("scaled:exactly-representable-polynomial-data", 1);
+        for l in ["scaled:unit=2^-1..2^-10", "scaled:unit=2^-11..2^-40", "scaled:unit<2^-40", "scaled:grading<2^-26", "scaled:grading=2^-26..2^-100", "scaled:grading>2^-100"] {
+            rep.require(l, 1);
         }
     }
     for d in 0..7usize {
